@@ -52,3 +52,5 @@ Definition trav_gwf (c : trav_case) : bool := let '(g, _, _, _) := c in gwf_b g.
 Definition trav_gwf_core (c : trav_case) : bool := let '(g, _, _, _) := c in gwf_core_b g.
 (* the hypotheses of C01_available_at_start_single_worker hold of the exported graph *)
 Definition trav_simple (c : trav_case) : bool := let '(g, _, _, _) := c in simple_b g.
+(* the hypotheses of C02_no_path_errors hold of the exported graph *)
+Definition trav_pwf (c : trav_case) : bool := let '(g, _, _, _) := c in pwf_b g.
